@@ -107,6 +107,46 @@ fn run(case: &HashMap<String, String>) -> String {
                 _ => "{\"outcome\":\"unknown-type\"}".to_string(),
             }
         }
+        "observe_rr" | "observe_packet" => {
+            use std::collections::hash_map::DefaultHasher;
+            use std::convert::TryFrom;
+            use std::hash::{Hash, Hasher};
+            let observe = |rr: &ResourceRecord| {
+                let _ = format!("{:?}", rr);
+                let _ = format!("{}", rr.name);
+                let c = rr.clone();
+                let o = c.clone().into_owned();
+                let _ = o == *rr;
+                let mut h = DefaultHasher::new();
+                rr.hash(&mut h);
+                let _ = h.finish();
+                let _ = rr.match_qtype(crate::QTYPE::MAILB);
+                let _ = rr.match_qclass(crate::QCLASS::ANY);
+                if let crate::rdata::RData::TXT(txt) = &rr.rdata {
+                    let _ = txt.attributes();
+                    let _ = txt.clone().long_attributes();
+                    let _ = String::try_from(txt.clone());
+                }
+            };
+            if entry == "observe_rr" {
+                let mut pos = 0usize;
+                match ResourceRecord::parse(&bytes, &mut pos) {
+                    Ok(rr) => { observe(&rr); "{\"outcome\":\"ok\"}".to_string() }
+                    Err(_) => "{\"outcome\":\"err\"}".to_string(),
+                }
+            } else {
+                match Packet::parse(&bytes) {
+                    Ok(p) => {
+                        let _ = format!("{:?}", p);
+                        for rr in p.answers.iter().chain(p.name_servers.iter()).chain(p.additional_records.iter()) { observe(rr); }
+                        for q in &p.questions { let _ = format!("{:?} {}", q, q.qname); }
+                        let _ = p.clone();
+                        "{\"outcome\":\"ok\"}".to_string()
+                    }
+                    Err(_) => "{\"outcome\":\"err\"}".to_string(),
+                }
+            }
+        }
         "packet_frame" => {
             let wp: usize = case["walker_pos"].parse().unwrap();
             let mut fails: Vec<&str> = Vec::new();
@@ -148,9 +188,18 @@ fn run(case: &HashMap<String, String>) -> String {
 #[test]
 fn verif_replay() {
     let case = load();
-    let r = std::panic::catch_unwind(|| run(&case));
-    match r {
-        Ok(s) => println!("REPLAY-RESULT {}", s),
-        Err(_) => println!("REPLAY-RESULT {{\"outcome\":\"panic\"}}"),
+    // watchdog: a parse that does not come back within 10 s is reported as a hang
+    let (tx, rx) = std::sync::mpsc::channel();
+    std::thread::spawn(move || {
+        let r = std::panic::catch_unwind(|| run(&case));
+        let _ = tx.send(r.ok());
+    });
+    match rx.recv_timeout(std::time::Duration::from_secs(10)) {
+        Ok(Some(s)) => println!("REPLAY-RESULT {}", s),
+        Ok(None) => println!("REPLAY-RESULT {{\"outcome\":\"panic\"}}"),
+        Err(_) => {
+            println!("REPLAY-RESULT {{\"outcome\":\"hang\"}}");
+            std::process::exit(0);
+        }
     }
 }
